@@ -1342,6 +1342,9 @@ def judge(ctx: Ctx, case, origin):
     bad = unexplained(ctx, fails)
     if not bad:
         return False
+    if len(ctx.violations) >= 5:     # enough minimised replays: count, do not shrink
+        ctx.violation(bad[0]["what"][:400], {"kind": "oracle", "origin": origin, "case": case})
+        return True
     first = bad[0]["what"].split(":")[0][:60]
 
     def still(c):
